@@ -34,7 +34,7 @@ Started(k)            == [e |-> "started", k |-> k, hk |-> "None", hid |-> 0, bl
 Ended(k, hdr, blocks) == [e |-> "ended", k |-> k, hk |-> hdr.kind, hid |-> hdr.id, blocks |-> blocks]
 
 SuccLabel(l) == CASE l = "A" -> "B" [] l = "B" -> "C" [] l = "C" -> "D"
-                  [] l = "D" -> "E" [] l = "E" -> "F" [] l = "F" -> "A"
+                  [] l = "D" -> "E" [] l = "E" -> "F" [] l = "F" -> "A" [] OTHER -> "A"
 
 \* ---------------------------------------------------------------- Transmission object
 InitTx(tok) == [type |-> "Idle", hdr |-> NoHdr, blocks |-> <<>>, expected |-> 0, received |-> 0,
@@ -193,7 +193,7 @@ MonStep(m, b, o, typeAfter) ==
         ELSE "ok"
       run == IF o.ev # <<>> \/ m1.open # "Voice" \/ ~IsVoiceBurst(b) THEN "None"
              ELSE IF b.cls = "VS" THEN "A"
-             ELSE IF m.run # "None" THEN o.label ELSE "None"
+             ELSE IF m.run # "None" THEN SuccLabel(m.run) ELSE "None"     \* the label the statement asks for (total: never the observed one)
   IN <<[m1 EXCEPT !.run = run, !.pseq = o.seq, !.ended = HasEnded(o.ev) \/ m.deferred, !.deferred = FALSE,
                   !.maxStream = IF o.stream > @ THEN o.stream ELSE @], why>>
 
